@@ -344,3 +344,113 @@ Definition c02_session_show (c : list (sop key Z) * list (sout key Z)) : list (s
 
 Definition c02_session_check (c : list (sop key Z) * list (sout key Z)) : bool :=
   list_eqb sout_eqb (c02_session_show c) (snd c).
+
+(* ================= the object that delivers the dictionaries =================
+   DataFrame(dictionaries) (dataframe.py 71-87) does   dicts = iter(dictionaries); first = next(dicts, None);
+   rows from chain([first] if there was one, dicts).   What that reads depends on the iteration protocol of the
+   object handed over, which has state of its own:
+     - a container (list, tuple, dict view) hands out a fresh iterator that starts at the beginning every time
+       and reading it consumes nothing                                             [src_rewinds = true];
+     - a one-shot iterator (generator, list iterator, map) is its own iterator; a reader over read-once state
+       (open file, queue drain) or a wrapper round a stored generator hands out iterator objects that all
+       advance the same position                                                   [src_rewinds = false].
+   The caller may have read from the object before and may use it again afterwards. *)
+Section Source.
+Variables K V : Type.
+Variable eqK : forall a b : K, {a = b} + {a <> b}.
+Variable vnone : V.
+
+Record source := Source {
+  src_items : list (list (K * V));     (* everything the object was made to deliver *)
+  src_pos : nat;                       (* shared read position (one-shot / read-once objects) *)
+  src_rewinds : bool
+}.
+
+Inductive cursor :=                    (* what iter(source) returns *)
+| CPrivate (pos : nat)                 (* an iterator with a position of its own *)
+| CShared.                             (* an iterator advancing the object's position *)
+
+Definition src_iter (s : source) : cursor := if src_rewinds s then CPrivate 0 else CShared.
+
+(* next(cursor, None) *)
+Definition cur_next (s : source) (c : cursor) : option (list (K * V)) * source * cursor :=
+  match c with
+  | CPrivate p => (nth_error (src_items s) p, s, CPrivate (S p))
+  | CShared =>
+      match nth_error (src_items s) (src_pos s) with
+      | Some d => (Some d, Source (src_items s) (S (src_pos s)) (src_rewinds s), CShared)
+      | None => (None, s, CShared)
+      end
+  end.
+
+(* "for row in cursor": fuel = an upper bound on what can still come *)
+Fixpoint cur_drain (fuel : nat) (s : source) (c : cursor) : list (list (K * V)) * source :=
+  match fuel with
+  | O => ([], s)
+  | S n =>
+      match cur_next s c with
+      | (Some d, s1, c1) => let '(l, s2) := cur_drain n s1 c1 in (d :: l, s2)
+      | (None, s1, _) => ([], s1)
+      end
+  end.
+
+(* DataFrame(source): one iter(), one next(), then the same iterator to its end *)
+Definition frame_from_source (s : source) : (list K * list (list V)) * source :=
+  let '(first, s1, c1) := cur_next s (src_iter s) in
+  let '(rest, s2) := cur_drain (length (src_items s)) s1 c1 in
+  (frame_of_dicts eqK vnone (match first with Some d => d :: rest | None => rest end), s2).
+
+(* what one pass over the object delivers now *)
+Definition src_pending (s : source) : list (list (K * V)) :=
+  if src_rewinds s then src_items s else skipn (src_pos s) (src_items s).
+
+Inductive src_op :=
+| SrcNext          (* the caller reads one record:  next(iter(obj), None) *)
+| SrcList          (* the caller reads what is left: list(obj) *)
+| SrcFrame.        (* DataFrame(obj) *)
+
+Inductive src_out :=
+| SrcItem (d : option (list (K * V)))
+| SrcItems (l : list (list (K * V)))
+| SrcFrameOut (cols : list K) (rows : list (list V))
+| SrcRaise (e : exn).                  (* never produced by the model *)
+
+Definition src_step (s : source) (o : src_op) : source * src_out :=
+  match o with
+  | SrcNext => let '(d, s1, _) := cur_next s (src_iter s) in (s1, SrcItem d)
+  | SrcList => let '(l, s1) := cur_drain (length (src_items s)) s (src_iter s) in (s1, SrcItems l)
+  | SrcFrame => let '(f, s1) := frame_from_source s in (s1, SrcFrameOut (fst f) (snd f))
+  end.
+
+Fixpoint src_run (s : source) (ops : list src_op) : source * list src_out :=
+  match ops with
+  | [] => (s, [])
+  | o :: r => let '(s1, x) := src_step s o in
+              let '(s2, xs) := src_run s1 r in (s2, x :: xs)
+  end.
+
+End Source.
+
+Arguments Source {K V}. Arguments src_items {K V}. Arguments src_pos {K V}. Arguments src_rewinds {K V}.
+Arguments src_iter {K V}. Arguments cur_next {K V}. Arguments cur_drain {K V}. Arguments frame_from_source {K V}.
+Arguments src_pending {K V}. Arguments SrcItem {K V}. Arguments SrcItems {K V}. Arguments SrcFrameOut {K V}.
+Arguments SrcRaise {K V}. Arguments src_step {K V}. Arguments src_run {K V}.
+
+Definition zdict_eqb (a b : zdict) : bool := list_eqb pair_eqb a b.
+
+Definition src_out_eqb (a b : src_out key Z) : bool :=
+  match a, b with
+  | SrcItem None, SrcItem None => true
+  | SrcItem (Some x), SrcItem (Some y) => zdict_eqb x y
+  | SrcItems x, SrcItems y => list_eqb zdict_eqb x y
+  | SrcFrameOut c1 r1, SrcFrameOut c2 r2 => list_eqb key_eqb c1 c2 && list_eqb row_eqb r1 r2
+  | SrcRaise x, SrcRaise y => exn_eqb x y
+  | _, _ => false
+  end.
+
+(* stream "source": (rewinds?, records, history, what each call returned on the implementation) *)
+Definition c02_source_show (c : bool * list zdict * list src_op * list (src_out key Z)) : list (src_out key Z) :=
+  let '(rw, ds, ops, _) := c in snd (src_run key_dec 0%Z (Source ds 0 rw) ops).
+
+Definition c02_source_check (c : bool * list zdict * list src_op * list (src_out key Z)) : bool :=
+  list_eqb src_out_eqb (c02_source_show c) (snd c).
